@@ -93,9 +93,8 @@ def find_duplicates(v, tol=0.0):
     dif = np.diff(v[i])
     dups = np.zeros(v.size, bool)
     tf = abs(dif) <= tol
-    dups[i[1:-1]] = np.logical_or(tf[1:], tf[:-1])
-    dups[i[0]] = tf[0]
-    dups[i[-1]] = tf[-1]
+    dups[i[1:]] = tf
+    dups[i[:-1]] |= tf
     return dups
 
 
